@@ -27,6 +27,15 @@ CLAIMS = {
  "C11": dict(technique="TLC-generated byte strings (all strings to a bound, tokens, every prefix/mutant of valid texts) replayed on unpadded exact-size and guard-page buffers",
    text="TLC supplies the inputs (every byte string up to a bound over a 16-symbol alphabet incl. the empty string, token sequences with junk tokens, every proper prefix and single-byte mutant of valid texts, string literals with specials at block offsets) x 8 paths; GetOnDemand runs on an exact-size heap block under ASan and, in production builds, on a buffer ending at a page end before PROT_NONE and on one starting at a page start after PROT_NONE; violation = fault / sanitizer report, success with a slice outside the input or offset > len, or a result that depends on the placement.",
    note="Out-of-range reads are observed by ASan and guard pages, not by TLC (DESIGN section 6).", ref="4/C11, 6"),
+ "C12": dict(technique="TLC model checking of the DOM state machine (spec/Dom.tla: I-model refines plain containers) + replay of TLC-simulated behaviours on real DNode",
+   text="spec/Dom.tla models every mutation operation with the representation the code uses (count in the node, capacity and key->index multimap in the hidden header, growth 16 / x1.5, RemoveMember tail swap with map repair, erase compaction with map destroyed first) next to plain containers; TLC checks exhaustively (small pools, 157k-2.5M states) that the I-model refines the R-model and that map, capacity and lookup invariants hold; TLC-simulated behaviours (16k x 25 steps quick) are replayed on DNode<MemoryPoolAllocator> and DNode<tracking freeing allocator>, comparing the accessor walk, lookups, Dump and return values with the R-state after every step.",
+   note="Trusted: Dom!Abs and the R-operations (plain containers); harness/rt_dom.cpp + walk.h. Capacities predicted by the I-model are DRIFT-only.", ref="4/C12"),
+ "C13": dict(technique="TLC-simulated DOM behaviours replayed with a tracking freeing allocator; recorded alloc/free traces validated by TLC against Trace_Ownership; LedgerOk model-checked",
+   text="The behaviours of spec/Dom.tla (set/add/remove/erase/reserve/clear/copy/move/swap/map, moves out of sub-nodes) are executed on DNode<TrackAllocator> (numbers blocks, poisons on free) under ASan+LSan: a double or foreign free, a block still live after root and aux are destroyed, or a sanitizer report is a violation; deep copies are mutated and destroyed independently; the recorded alloc/free/reset event traces are validated by TLC (Trace_Ownership: free only live ids, nothing live at reset); the ledger invariant (blocks outstanding = blocks reachable) is model-checked on the I-model.",
+   note="Document-level histories (Parse/ParseSchema on invalid input, document move/swap) are exercised by the C02/C19 replays under ASan+LSan, not yet by the Dom state machine.", ref="4/C13"),
+ "C18": dict(technique="TLC model checking of Dom!EqOk (I-model of operator== vs JSON equality) + replay with equality verdicts from the R-model",
+   text="Dom!IEq transcribes operator== (size check, per-member lookup in rhs through its map if any, kind-and-value number compare) and TLC checks on every reachable pair (root, aux) of the DOM state machine that it equals JSON equality REq in both directions, is reflexive and holds for deep copies, whatever capacities, ownership kinds and maps; on replay, after every step, root==aux, aux==root and != are compared with REq, and a deep copy in another allocator type and the parse of Dump() must be == to the original.",
+   note="Equality is specified for duplicate-free values only (as the property says); steps whose values contain duplicate keys skip the verdict.", ref="4/C18"),
 }
 
 def main():
